@@ -12,14 +12,15 @@ let rv_of_string s : revision =
   match s with
   | "pinned" -> { fix_rollback_replace = false; fix_alias_steal_undo = false; fix_alias_nodes_only = false;
                   fix_strict_order = false; fix_slice_clamp = false; fix_edge_origin = false; fix_visited_chain = false;
-                  fix_nodes_ids_alias = false }
+                  fix_nodes_ids_alias = false; fix_empty_alias = false }
   | "fixed" -> { fix_rollback_replace = true; fix_alias_steal_undo = true; fix_alias_nodes_only = true;
                  fix_strict_order = true; fix_slice_clamp = true; fix_edge_origin = true; fix_visited_chain = true;
-                 fix_nodes_ids_alias = true }
+                 fix_nodes_ids_alias = true; fix_empty_alias = true }
   | _ -> { fix_rollback_replace = b 0; fix_alias_steal_undo = b 1; fix_alias_nodes_only = b 2;
            fix_strict_order = b 3; fix_slice_clamp = b 4; fix_edge_origin = b 5;
            fix_visited_chain = (String.length s > 6 && b 6);
-           fix_nodes_ids_alias = (String.length s > 7 && b 7) }
+           fix_nodes_ids_alias = (String.length s > 7 && b 7);
+           fix_empty_alias = (String.length s > 8 && b 8) }
 
 let cur_rv = ref (rv_of_string "pinned")
 let cur_db = ref db_new
